@@ -991,8 +991,9 @@ impl World {
                     ));
                 }
             }
-            let unbounded = budget >= 10_000_000;
-            if unbounded {
+            // budget left when the flush ended: a due unit that still fits into it was allowed by the budget at every point of the flush
+            let left_at_end = budget.saturating_sub(bytes_by_chan.values().sum::<u64>());
+            {
                 for (ch, cm) in ds.chans.iter() {
                     if !cm.cfg.kind.reliable() {
                         continue;
@@ -1010,11 +1011,12 @@ impl World {
                                 None => true,
                                 Some(&t) => now - t >= cm.cfg.resend_ms,
                             };
-                            if due {
+                            let need = if m.parts > 1 { SLICE as u64 } else { m.len() as u64 };
+                            if due && need <= left_at_end {
                                 return Err(Fail::new(
                                     "resend_late",
                                     format!(
-                                        "channel {ch} message id {} part {part} is unacknowledged, last sent {:?} ms, now {now} ms, resend_time {} ms, but it is not in this flush",
+                                        "channel {ch} message id {} part {part} is unacknowledged, last sent {:?} ms, now {now} ms, resend_time {} ms, but it is not in this flush, which ended with {left_at_end} bytes of its budget unused ({need} needed)",
                                         m.mid,
                                         m.tx_ms[part].last(),
                                         cm.cfg.resend_ms
